@@ -531,7 +531,7 @@ MANIFEST = dict(
         "the stated behaviour over all metric histories, and float formatting round trips, are not decided."),
     level_note="Trusted: python ast, csv module semantics. Known finding F10 (lr cached raw, persisted with "
                "'{:.4e}') is listed in known_findings.json.",
-    technique="static analysis: literal-table extraction and set comparison, reaching definitions, linear normal forms, abstract interpretation of the per-epoch update over a finite grid",
+    technique="static analysis: literal-table extraction and set comparison, reaching definitions, linear normal forms, abstract interpretation of the per-epoch update over a finite grid; checkpoint table: __init__ / update_for_epoch interpreted against a modelled state directory over every metric history of length 3 and 4",
     design_ref="DESIGN.md section 4 C15",
 )
 
